@@ -133,8 +133,10 @@ def cases(ctx):
             sdk.append({"kind": "nv-hw-rot", "mnemonic": m, "n": n_, "d": d_, "expect": "in" if (0 <= d_ <= 4 and 0 <= n_ <= 255) else "out"})
     for site in ("reg", "addr", "entry", "slice", "app", "version"):
         for v in (1, 5, 15, 16, 255, 300, 70000):
-            sdk.append({"kind": "carrier", "site": site, "value": v,
-                        "expect": "in" if v < {"reg": 16, "entry": 16, "slice": 16, "version": 256, "app": 65536}.get(site, 2**31) else "out"})
+            for plain in (False, True):
+                # (plain: an int subclass that carries its value in __int__ only - comparisons still see the raw 0)
+                sdk.append({"kind": "carrier", "site": site, "value": v, "plain": plain,
+                            "expect": "in" if v < {"reg": 16, "entry": 16, "slice": 16, "version": 256, "app": 65536}.get(site, 2**31) else "out"})
     for c in sdk:
         k += 1
         if ctx.mine(k):
@@ -554,6 +556,15 @@ def run_case(ctx, case):
             __eq__ = lambda self, o: self.v == o
             __hash__ = lambda self: hash(self.v)
             __str__ = __repr__ = lambda self: str(self.v)
+        if case.get("plain"):
+            class Carrier(int):  # noqa: F811
+                """An int subclass that carries the value it stands for in __int__ / __index__ only."""
+                def __new__(cls, v):
+                    o = int.__new__(cls, 0)
+                    o.v = v
+                    return o
+                __int__ = __index__ = lambda self: self.v
+                __str__ = __repr__ = lambda self: str(self.v)
         ctx.count("carrier_operands")
         v = case["value"]
         site = case["site"]
